@@ -405,6 +405,8 @@ func runC15(c *Ctx, r *Report) {
 	importRules(c, r, "C03", []string{"R-C03.2", "R-C03.3"}, "R-C15.7")
 	r.Doc("R-C15.14", "'newest first' rests on every appended entry carrying a time above its heads (adopted from C04)")
 	importRules(c, r, "C04", []string{"R-C04.2"}, "R-C15.14")
+	r.Doc("R-C15.15", "every slice or map is allocated with a constant size or a size bounded by a collection that exists (len, cap, Len(), a minimum with one of them), through every call site of a sizing parameter: an amount that exceeds what is available must not size anything")
+	allocationsBoundedByWhatExists(c, r, "R-C15.15")
 	r.Doc("R-C15.8", "the loops that build the start set from the upper bounds process every bound")
 	loopsComplete(c, r, "R-C15.8", func(fn *Fn) bool { return rootNamed(fn, "Iterator") }, "upper bounds after the point where the loop stops are ignored: their causal past is not emitted")
 	r.Doc("R-C15.9", "the number of entries the traversal may take is either unlimited (−1, trimmed afterwards) or the requested amount itself — never a larger computed value")
